@@ -222,16 +222,20 @@ def run_encoders(ck):
         rows = [e for b in c["batches"] or [] for e in b or [] if e.get("err", 0) == 0]
         fps = [e["fp"] for e in rows]
         nser = sum(1 for i, f in enumerate(fps) if i == 0 or fps[i - 1] != f)
-        if (nser >= 2 and len(rows) >= 3 and len(c["batches"] or []) >= 2) or len(c.get("items") or []) >= 2:
+        prom = c["kind"].startswith("prom") and (len(c["batches"] or []) >= 2 or len(rows) >= 2 or c["kind"] == "promerror")
+        if (nser >= 2 and len(rows) >= 3 and len(c["batches"] or []) >= 2) or len(c.get("items") or []) >= 2 or prom:
             distinct.add(c["kind"] + c["out"])
     ck.coverage["evaluations"] += len(cases)
     ck.coverage["distinct_nontrivial"] += len(distinct)
     ck.coverage["rule"] += ("encoders: random result sets (0..5 series runs, fingerprints incl. 0 / 2^64-1 / repeated in separate runs, 1..4 rows per run, "
                             "labels and lines over all byte classes incl. quotes, backslashes, controls, invalid UTF-8, int64 extremes, "
                             "special floats), split into batches at random points with empty batches and io.EOF markers; "
-                            "list endpoints (tempo tags / tag values, labels, series): 0..7 byte strings of the same classes, stored label documents "
-                            "valid / strconv.Quote-style / truncated; "
-                            "non-trivial = >=2 series, >=3 rows, >=2 batches (row encoders) or >=2 items (list endpoints); distinct by kind+body. ")
+                            "the same rows drive streams / matrix / vector / tail; Prometheus writers: 0..5 series with label slices (duplicate names possible) "
+                            "and 0..4 points, scalar, error message; list endpoints (tempo tags / tag values, labels, series): 0..7 byte strings of the same "
+                            "classes, stored label documents valid / strconv.Quote-style / truncated; tempo trace / search: 0..6 spans or traces with random "
+                            "names, attributes of every kind, events, status; "
+                            "non-trivial = >=2 series, >=3 rows, >=2 batches (row encoders), >=2 series or points (Prometheus), >=2 items (list and "
+                            "splicing endpoints); distinct by kind+body. ")
     ck.extra["input_classes"] = hist
     ck.extra["input_distribution"] = {"kinds": kinds, "classes": hist}
     ck.extra["go_rows_checked"] = sum(1 for c in ok_cases if c["gorows"] == "ok")
